@@ -17,7 +17,7 @@ func bigv(mode string) Variant {
 	// reserves near 2^127 / 2^100, trades of 1, 2^64+1 and 2^96-1
 	return Variant{Name: "big-reserves", Mode: mode,
 		Std1: mc.Big(127).AddRaw(1), Tok1: mc.Big(100).AddRaw(7), Std2: mc.Big(110).SubRaw(1), Tok2: mc.Big(120).AddRaw(3),
-		Amts: []sdkmath.Int{i(1), mc.Big(64).AddRaw(1), mc.Big(96).SubRaw(1)}, Params: false}
+		Amts: []sdkmath.Int{i(1), mc.Big(64).AddRaw(1), mc.Big(96).SubRaw(1)}, Params: false, SubSecond: true}
 }
 
 const rule = "state in which both fixture pools are live after at least one operation; distinct by canonical hash of coinswap+bank stores"
